@@ -115,9 +115,58 @@ def abs (s : Store) : Spec.Map :=
 
 end Store
 
-/-- two abstract maps with the same observable behaviour -/
+/-- no key twice -/
+def Spec.NodupKeys (m : Spec.Map) : Prop := (m.map Prod.fst).Nodup
+
+/-- two abstract maps with the same observable behaviour: both hold each key at most once and
+they answer every lookup alike (hence they have the same length, `Spec.Equiv.len`). -/
 def Spec.Equiv (m m' : Spec.Map) : Prop :=
-  (∀ k, Spec.get m k = Spec.get m' k) ∧ Spec.len m = Spec.len m'
+  Spec.NodupKeys m ∧ Spec.NodupKeys m' ∧ ∀ k, Spec.get m k = Spec.get m' k
+
+namespace Store
+
+/-- some used key record holds key `k` and refers to the value record at `vo` -/
+def HasKV (s : Store) (k : List Nat) (vo : Nat) : Prop :=
+  ∃ o sz r, s.kf.used o = some (sz, r) ∧ r.key = k ∧ r.valOff = vo
+
+/-- link segment: following `next` from `cur` through the used records `l` arrives at `tgt` -/
+def segFrom (kf : RecFile KeyRec) : List (Nat × KeyRec) → Nat → Nat → Prop
+  | [], cur, tgt => cur = tgt
+  | (o, r) :: rest, cur, tgt =>
+    cur = o ∧ o ≠ 0 ∧ (∃ sz, kf.used o = some (sz, r)) ∧ segFrom kf rest r.next tgt
+
+/-- the state inside `relink_moved_key_piece`: everything of `InvX` holds except that the chain
+of bucket `b` is cut in two: from the bucket, the records `l1` lead to the stale offset `old`
+(which holds no used record any more), and the records `l2` (a proper chain) start at `new`.
+Linking the end of `l1` (or the bucket) to `new` repairs it. -/
+structure Broken (kt : KeyType) (s : Store) (x b old new : Nat) (l1 l2 : List (Nat × KeyRec)) : Prop where
+  npos : 0 < s.n
+  kwf : RecFile.WF keyCfg s.kf
+  vwf : RecFile.WF valCfg s.vf
+  heads_lt : ∀ b', s.n ≤ b' → s.headOf b' = 0
+  bits_ok : ∀ b', s.bitOf b' = decide (s.headOf b' ≠ 0)
+  b_lt : b < s.n
+  chains_other : ∀ b', b' < s.n → b' ≠ b → ∃ l, s.chain b' = some l ∧ (l.map (·.1)).Nodup ∧
+            ∀ p ∈ l, bucketOf p.2.key s.n = b' ∧ p.1 ≠ x
+  seg : segFrom s.kf l1 (s.headOf b) old
+  old_free : old ≠ 0 ∧ s.kf.used old = none
+  x_used : x ≠ 0 → ∃ sz r, s.kf.used x = some (sz, r)
+  tail : new ≠ 0 ∧ chainFrom s.kf (s.kf.slots.length + 1) new = some l2
+  nodup : ((l1 ++ l2).map (·.1)).Nodup
+  bucket : ∀ p ∈ l1 ++ l2, bucketOf p.2.key s.n = b ∧ p.1 ≠ x
+  on_chain : ∀ o sz r, s.kf.used o = some (sz, r) → o ≠ x →
+            if bucketOf r.key s.n = b then (o, r) ∈ l1 ++ l2
+            else ∃ l, s.chain (bucketOf r.key s.n) = some l ∧ (o, r) ∈ l
+  keys_ok : ∀ o sz r, s.kf.used o = some (sz, r) → KeyOK kt r.key
+  keys_inj : ∀ o o' sz sz' r r', s.kf.used o = some (sz, r) → s.kf.used o' = some (sz', r') →
+            r.key = r'.key → o = o'
+  val_used : ∀ o sz r, s.kf.used o = some (sz, r) → ∃ vs v, s.vf.used r.valOff = some (vs, v)
+  val_inj : ∀ o o' sz sz' r r', s.kf.used o = some (sz, r) → s.kf.used o' = some (sz', r') →
+            r.valOff = r'.valOff → o = o'
+  val_owned : ∀ vo vs v, s.vf.used vo = some (vs, v) → ∃ o sz r, s.kf.used o = some (sz, r) ∧ r.valOff = vo
+  count_ok : s.count = (s.kf.slots.filter fun p => match p.2 with | .used _ _ => true | _ => false).length
+
+end Store
 
 /-- what a caller may pass for a map of key type `kt` -/
 def Op.OK (kt : KeyType) : Op → Prop
